@@ -1,6 +1,6 @@
 (* C09 Accepted programs are well formed; malformed ones never compile silently. *)
 From Coq Require Import List String.
-From PC Require Import Comp.Syntax Comp.Struct Comp.StructProofs Comp.Compile Comp.Denote Comp.EmitProofs Comp.WfCheck Comp.WfPil Comp.CompileProofs Design.Designer Design.CrossProofs.
+From PC Require Import Comp.Syntax Comp.Struct Comp.StructProofs Comp.Compile Comp.Denote Comp.EmitProofs Comp.WfCheck Comp.WfPil Comp.CompileProofs Design.Designer Design.CrossProofs Base.Sexp Sys.System Sys.LoadWf Sys.SysWfPil Sys.SysDesign.
 Import ListNotations.
 
 (* whenever output is produced for a well-formed object, the document passes the executable
@@ -43,3 +43,14 @@ Theorem C09_wf_pil_documents_load : forall ls, wf_pil ls = true ->
   (forall n k len, In (PSeq n k len) ls -> valid_template k = true) -> exists p, load_spec ls pspec0 = OK p.
 Proof. exact wf_pil_loads. Qed.
 Print Assumptions C09_wf_pil_documents_load.
+
+(* whole systems: the specification written for whatever load_file accepts - any depth of nesting - passes the
+   predicate (instance and signal names are identifiers without '-', as the .sys grammar yields them: a boolean) *)
+Theorem C09_loaded_system_wf_pil : forall fs includes ctr b args o ctr', load_file fs includes 12 ctr b args "" "." = OK (o, ctr') ->
+  names_ok 12 o -> wf_pil (emit_obj 12 o) = true.
+Proof. exact loaded_system_wf_pil. Qed.
+Print Assumptions C09_loaded_system_wf_pil.
+
+Theorem C09_names_okb_sound : forall f o, names_okb f o = true -> names_ok f o.
+Proof. exact names_okb_sound. Qed.
+Print Assumptions C09_names_okb_sound.
